@@ -298,7 +298,9 @@ func (s *scope) setInstance(descriptor *Descriptor, key instanceKey, instance an
 		s.rootProvider.setSingleton(key, instance)
 	case Scoped:
 		s.instancesMu.Lock()
-		s.instances[key] = instance
+		if s.instances != nil { // nil once the scope has been closed
+			s.instances[key] = instance
+		}
 		s.instancesMu.Unlock()
 		fallthrough
 	case Transient:
